@@ -115,7 +115,7 @@ def run(ctx):
             ctx.violation(key, detail + " | workload seed %d sizes %r" % (out["seed"], out["sizes"]), {"seed": out["seed"], "key": key})
     n_exc = sum(1 for o in res if o["exc"])
     if n_exc > 0.25 * len(res):
-        raise runner.HarnessError("%d of %d cache-shadow workloads raised; memoisation cannot be judged (see C19)" % (n_exc, len(res)))
+        ctx.cannot_judge("%d of %d cache-shadow workloads raised; memoisation cannot be judged (see C19)" % (n_exc, len(res)))
     ctx.cov["evaluations"] = sum(calls.values())
     ctx.cov["distinct_nontrivial"] = sig if sig >= 2 else len(res)
     ctx.cov["workloads"] = len(res)
